@@ -4,8 +4,9 @@
 
   * loading: `Plugins.load` (Model/Plugins.lean) with the sort direction and the `order() or 0` default read from
     the source this run (`Extracted.Plugins`).  Quantifier: every list of configured plugins `specs` (built-in
-    and custom, importable or not, constructible or not, active or not, any `order()` value incl. `None`,
-    negative, ties).
+    and custom, importable or not, constructible or not, active or not, any `order()` value: `None`, ints, bools and
+    floats — every finite number, as the decimal `m / 10^e` it is (`Plugins.Num`), compared as Python compares numbers:
+    negative, fractional, ties such as 1 / 1.0 / True; `inf` and `nan` are outside the model —, raising, not a number).
   * "switched off by configuration": `Extracted.Plugins.isActive` is `Plugin.is_active` + `utils.str2bool` translated from
     the source this run, on the value `PLUGIN_<NAME>` has when it reaches `is_active` (text, Python bool/int, or None).
   * what the statement's "the agent still starts" and "the snapshot is still delivered" rest on: `c20_start_completes`
@@ -34,14 +35,38 @@ open Plugins Guard Extracted.Guards
 
 /-! ### loading -/
 
-/-- **loaded = the loadable ones, stably sorted by `order() or 0`**: the result is a permutation of the
-    configured plugins that import, construct and are active; it is ordered by key; and plugins with equal keys
-    keep their configured order (built-in first, then custom, as listed). -/
+/-- **loaded = the loadable ones, stably sorted by the DECLARED `order() or 0`**: the result is a permutation of the
+    configured plugins that import, construct and are active; it is ordered by key — the number `order()` returned
+    (int, bool or float: `Num`, compared as Python compares numbers, nothing rounded) —; and plugins whose keys are
+    the same number keep their configured order (built-in first, then custom, as listed). -/
 theorem c20_loaded (specs : List Spec) :
     (load specs).Perm (specs.filter Spec.loadable) ∧
-    (load specs).Pairwise (fun a b => a.key ≤ b.key) ∧
-    ∀ k, (load specs).filter (fun s => s.key == k) = (specs.filter Spec.loadable).filter (fun s => s.key == k) :=
+    (load specs).Pairwise (fun a b => a.key.le b.key = true) ∧
+    ∀ k, (load specs).filter (fun s => s.key.eqv k) = (specs.filter Spec.loadable).filter (fun s => s.key.eqv k) :=
   ⟨sort_perm _, sort_sorted _, fun k => sort_stable k _⟩
+
+/-- **the order the plugins are compared by is the order of the numbers**: `Num.le` on `m / 10^e` is reflexive,
+    total and transitive, agrees with `≤` of the integers on whole numbers, and does not depend on how many decimal
+    places a number is written with (so 1, 1.0 and True are one position, and 1.2 < 1.5 < 2, -0.5 < 0). -/
+theorem c20_order_is_numeric :
+    (∀ a : Num, a.le a = true) ∧ (∀ a b : Num, a.le b = true ∨ b.le a = true) ∧
+    (∀ a b c : Num, a.le b = true → b.le c = true → a.le c = true) ∧
+    (∀ a b : Int, (Num.ofInt a).le (Num.ofInt b) = decide (a ≤ b)) ∧
+    (∀ a : Num, a.eqv ⟨a.m * 10, a.e + 1⟩ = true) :=
+  ⟨Num.le_refl, Num.le_total, fun _ _ _ => Num.le_trans, Num.le_ofInt, Num.eqv_scale⟩
+
+/-- **a strictly smaller declared order is strictly in front**: if `a` and `b` are both loaded and `a`'s order is
+    smaller than `b`'s (not `b ≤ a`), then `a` stands before `b` in the loaded list — whatever their configured
+    sequence and however close the two numbers are (1.2 before 1.5, -0.5 before the built-in 0). -/
+theorem c20_smaller_first (specs : List Spec) (i j : Nat) (hi : i < (load specs).length) (hj : j < (load specs).length)
+    (hlt : ((load specs)[j]).key.le ((load specs)[i]).key = false) : i < j := by
+  rcases Nat.lt_or_ge i j with h | h
+  · exact h
+  · exfalso
+    rcases Nat.eq_or_lt_of_le h with h | h
+    · subst h; rw [Num.le_refl] at hlt; exact Bool.noConfusion hlt
+    · have := List.pairwise_iff_getElem.mp (c20_loaded specs).2.1 j i hj hi h
+      rw [this] at hlt; exact Bool.noConfusion hlt
 
 /-- a plugin is loaded iff it is configured and loadable: missing dependencies, `PLUGIN_<NAME>=False` and a
     raising constructor each skip exactly that plugin. -/
@@ -91,7 +116,7 @@ theorem c20_load_total (specs : List Spec) : loadRaises specs = false := by
 
 /-- the order is the declared one: a loaded plugin with a smaller key is never behind one with a larger key. -/
 theorem c20_order_respected (specs : List Spec) (i j : Nat) (hi : i < j) (hj : j < (load specs).length) :
-    ((load specs)[i]'(by omega)).key ≤ ((load specs)[j]'hj).key :=
+    (((load specs)[i]'(by omega)).key.le ((load specs)[j]'hj).key) = true :=
   List.pairwise_iff_getElem.mp (c20_loaded specs).2.1 i j (by omega) hj hi
 
 /-- what the source says now: ascending sort, a falsy `order()` counts as 0 (the three facts of `c20_loaded` are
@@ -206,7 +231,9 @@ theorem c20_snapshot_delivered (env : Env) (hf : FaultsAt (onlyAt (loopSites dec
 /-! ### non-vacuity -/
 
 private def sp (id : Nat) (imp ctor act : Bool) (o : Option Int) : Spec :=
-  ⟨id, imp, ctor, if act then none else some (.bool false), .value o⟩
+  ⟨id, imp, ctor, if act then none else some (.bool false), .value (o.map Num.ofInt)⟩
+
+private def spn (id : Nat) (m : Int) (e : Nat) : Spec := ⟨id, true, true, none, .value (some ⟨m, e⟩)⟩
 
 /-- built-in 0 and 1, custom 2..6: one missing module, one inactive, one raising constructor, ties, `None`,
     a negative order. -/
@@ -214,8 +241,16 @@ example :
     (load [sp 0 true true true (some 0), sp 1 false true true none, sp 2 true true true (some 5),
            sp 3 true false true (some (-9)), sp 4 true true false (some (-8)), sp 5 true true true none,
            sp 6 true true true (some (-1)), sp 7 true true true (some 5),
-           ⟨8, true, true, none, .unusable⟩, ⟨9, true, true, some (.text "no"), .value (some (-50))⟩]).map Spec.id
+           ⟨8, true, true, none, .unusable⟩, ⟨9, true, true, some (.text "no"), .value (some (Num.ofInt (-50)))⟩]).map Spec.id
       = [6, 0, 5, 2, 7] := by
+  decide
+
+/-- fractional and boolean orders: 1.5 configured before 1.2, 2.0 and 2 and True(=1) ties, -0.5 against the built-in
+    0, 0.0 (falsy): declared order decides, ties keep the configured sequence — nothing is truncated -/
+example :
+    (load [spn 0 0 0, spn 1 15 1, spn 2 12 1, spn 3 20 1, spn 4 2 0, spn 5 (-5) 1, spn 6 1 0, spn 7 0 1,
+           spn 8 (-25) 2, spn 9 10 1]).map Spec.id
+      = [5, 8, 0, 7, 6, 9, 2, 1, 3, 4] := by
   decide
 
 /-- a loop without the per-plugin `try` is not isolated (what the metric loop looked like before it was guarded) -/
